@@ -415,7 +415,9 @@ func (s *session) continueUntilWait(sprint *sprint, currentRun flows.Run, node f
 			numNewSteps++
 
 			if numNewSteps > s.engine.Options().MaxStepsPerSprint {
-				// we've hit the step limit - usually a sign of a loop
+				// we've hit the step limit - usually a sign of a loop.. note that we may have just switched runs, in which
+				// case the last step we visited belongs to a different run
+				step, _, _ = currentRun.PathLocation()
 				failRun(sprint, currentRun, step, fmt.Errorf("reached maximum number of steps per sprint (%d)", s.engine.Options().MaxStepsPerSprint))
 			} else {
 				node = currentRun.Flow().GetNode(destination)
